@@ -285,15 +285,6 @@ def Store.seekObs (s : Store) (rng : SeekRange) (cut : Bool) (lim : Nat) : List 
   | .cached L ps => performSeek (ps.seek (lowerRange rng)) (snapshot L rng) rng cut lim
   | b => if lim == 0 then b.seek rng else (b.seek rng).take lim
 
-/-- `Seek` as it really runs, in two critical sections: the cached items of the top store are
-snapshotted under the read lock together with the `ps` pointer (state `s0`,
-prepareSeekMemSnapshot), the lock is released, and the captured lower store is scanned later
-(state `s1`, performSeek l.307). `Store.seek` is the case `s1 = s0`. -/
-def Store.seekTwoPhase (s0 s1 : Store) (rng : SeekRange) : List KV :=
-  match s0, s1 with
-  | .cached L0 _, .cached _ ps1 => performSeek (ps1.seek (lowerRange rng)) (snapshot L0 rng) rng false 0
-  | _, _ => s1.seek rng
-
 /-! ### writes and flushes -/
 
 def Store.put : Store → Key → Option Val → Store
